@@ -1,6 +1,7 @@
 package dag
 
 import (
+	"encoding/json"
 	"os"
 	"path/filepath"
 	"strings"
@@ -227,6 +228,11 @@ func vfBuildAndCheck(def *definition, optk int) {
 			s := &d.Steps[i]
 			vfAssert(s.Name != "", "C13.wellformed/accepted-step-has-a-name")
 			vfAssert(vfRunnable(s), "C13.wellformed/accepted-step-has-something-to-execute")
+			_, jerr := json.Marshal(s)
+			if jerr != nil {
+				vfClass("executor-config-not-json-serialisable")
+			}
+			vfAssert(jerr == nil, "C13.serial/accepted-step-is-json-serialisable")
 		}
 		for _, h := range []*Step{d.HandlerOn.Exit, d.HandlerOn.Success, d.HandlerOn.Failure, d.HandlerOn.Cancel} {
 			if h != nil {
@@ -458,3 +464,18 @@ func VerifHarness_C19_step()     { vfOptN = 2; VerifHarness_C13_step() }
 func VerifHarness_C19_executor() { vfOptN = 2; VerifHarness_C13_executor() }
 func VerifHarness_C19_call()     { vfOptN = 2; VerifHarness_C13_call() }
 func VerifHarness_C19_handlers() { vfOptN = 2; VerifHarness_C13_handlers() }
+
+// C13.precond: evaluating the preconditions of an accepted DAG never crashes, whatever
+// the condition, the expected pattern ("re:" patterns valid or not) and the command output.
+func VerifHarness_C13_precond() {
+	conds := []Condition{{Condition: vfS("cond"), Expected: vfS("expected")}}
+	if vfChoice("re", 2) == 1 {
+		conds[0].Expected = "re:" + vfS("pattern")
+	}
+	if vfChoice("two", 2) == 1 {
+		conds = append(conds, Condition{Condition: "x", Expected: "x"})
+	}
+	_ = EvalConditions(conds)
+	vfReach("evaluated")
+	vfReach("end")
+}
